@@ -41,11 +41,13 @@ func __disjoint(a, b any) bool                           { return true }
 func __assumes(label string, f func() bool)              {}
 func __heapof(x any) any                                 { return x }
 func __split(f func() int, lo, hi int)                   {}
+func __splitcond(at int, f func() bool)                  {}
 func __ghost(name string) int                            { return 0 }
 func __ghostset(name string, f func() int)               {}
 func __lastsent[T any](ch chan T) (r T)                  { return }
 func __sentcount[T any](ch chan T) int                   { return 0 }
 func __assert(label string, f func() bool)               {}
+func __assumeat(label string, f func() bool)             {}
 func __progress(label string, f func() bool)             {}
 func __assumedensures(label string, f func() bool)       {}
 func __iterstart[T any](x T) T                           { return x }
@@ -389,6 +391,9 @@ func buildOverlay(pkgDir string) (*OverlayResult, error) {
 					}
 				}
 			}
+			for _, sc := range c.SplitConds {
+				fmt.Fprintf(&sb, " __splitcond(%s, func() bool { return %s });", sc[0], specToGo(sc[1], resultName))
+			}
 			if rt := c.Flags["replaytext"]; rt != "" {
 				fmt.Fprintf(&sb, " __replaytext(%s);", rt)
 			}
@@ -397,13 +402,17 @@ func buildOverlay(pkgDir string) (*OverlayResult, error) {
 			}
 			ins = append(ins, insertion{off(fd.Body.Lbrace) + 1, sb.String()})
 			for _, a := range c.Asserts {
+				marker := "__assert"
+				if a.Assume {
+					marker = "__assumeat"
+				}
 				if a.Each {
 					sts := stmtsContaining(fd.Body, src, off, a.After)
 					if len(sts) == 0 {
 						res.Problems = append(res.Problems, fmt.Sprintf("contract-target-missing: assert %s of %s: no statement contains %q", a.Label, c.Key, a.After))
 					}
 					for _, at := range sts {
-						ins = append(ins, insertion{off(at.Pos()), fmt.Sprintf("__assert(%s, func() bool { return %s }); ", quoteLabel(a.Label), specToGo(a.Text, resultName))})
+						ins = append(ins, insertion{off(at.Pos()), fmt.Sprintf(marker+"(%s, func() bool { return %s }); ", quoteLabel(a.Label), specToGo(a.Text, resultName))})
 					}
 					continue
 				}
@@ -413,10 +422,10 @@ func buildOverlay(pkgDir string) (*OverlayResult, error) {
 					continue
 				}
 				if a.Before {
-					ins = append(ins, insertion{off(at.Pos()), fmt.Sprintf("__assert(%s, func() bool { return %s }); ", quoteLabel(a.Label), specToGo(a.Text, resultName))})
+					ins = append(ins, insertion{off(at.Pos()), fmt.Sprintf(marker+"(%s, func() bool { return %s }); ", quoteLabel(a.Label), specToGo(a.Text, resultName))})
 					continue
 				}
-				ins = append(ins, insertion{off(at.End()), fmt.Sprintf("; __assert(%s, func() bool { return %s });", quoteLabel(a.Label), specToGo(a.Text, resultName))})
+				ins = append(ins, insertion{off(at.End()), fmt.Sprintf("; "+marker+"(%s, func() bool { return %s });", quoteLabel(a.Label), specToGo(a.Text, resultName))})
 			}
 			loops := collectLoops(fd.Body)
 			if len(c.LoopInv) > 0 || len(c.LoopDec) > 0 {
